@@ -1,19 +1,48 @@
 (** One case line in, one result line out: the same protocol as harness/src/main.rs. *)
-From Pakhi Require Import Base Float64 Syntax Lexer Show.
+From Pakhi Require Import Base Float64 Syntax Lexer Parser Show.
 Open Scope N_scope.
 
 Definition cmd_is (w : text) (s : list N) : bool := text_eqb w s.
+Definition bad : text := [98;97;100].
 
 Definition do_lex (args : list text) : text :=
   match args with
   | file :: src :: _ => show_outcome show_tokens (tokenize (dec_text src) (dec_text file))
-  | _ => [98;97;100]
+  | _ => bad
+  end.
+
+(* files: n then n pairs (path, content); the first file is the main module *)
+Fixpoint take_files (n : nat) (args : list text) : list (text * text) :=
+  match n, args with
+  | S n', p :: c :: r => (dec_text p, dec_text c) :: take_files n' r
+  | _, _ => []
+  end.
+Definition parse_files (args : list text) : list (text * text) :=
+  match args with n :: r => take_files (N.to_nat (parse_dec n)) r | [] => [] end.
+
+Definition fs_of (files : list (text * text)) (p : text) : option text := assoc_text p files.
+
+(* the oracle runs with the scratch directory as working directory; its name never reaches an observable
+   unless the program uses _ডাইরেক্টরি, and those streams pass the directory explicitly *)
+Definition default_cwd : text := [47;119].   (* "/w" *)
+
+(* fuel bounds the recursion depth of the parser model: statements nest in the continuation of pprogram and every
+   token adds at most one ladder descent; generous, and an exhausted fuel shows up as "hang" in the comparison *)
+Definition parse_fuel (files : list (text * text)) : nat :=
+  (64 + 24 * (S (length files)) * fold_left (fun acc f => acc + length (snd f)) files 0)%nat.
+
+Definition do_parse (args : list text) : text :=
+  match parse_files args with
+  | (main, src) :: rest =>
+      show_outcome show_program (front (fs_of ((main, src) :: rest)) default_cwd main (parse_fuel ((main, src) :: rest)) src)
+  | [] => bad
   end.
 
 Definition run_case (line : text) : text :=
   match split_on 32 line with
   | cmd :: args =>
       if cmd_is cmd [108;101;120] then do_lex args
+      else if cmd_is cmd [112;97;114;115;101] then do_parse args
       else [98;97;100;45;99;111;109;109;97;110;100]
-  | [] => [98;97;100]
+  | [] => bad
   end.
